@@ -498,7 +498,8 @@ def project(events, run_index=0):
         elif t == "GPTrainSet":
             ev("GPTrainSet", site=e["site"], ntrain=e["ntrain"], nunlogged=e["n_unlogged"],
                nvalmis=e["n_valmis"], s2ok=e["s2_ok"], s2lenok=e["s2_len_ok"],
-               allused=bool(e.get("all_logged_used", True)), refit=bool(e.get("refit", False)))
+               allused=bool(e.get("all_logged_used", True)), refit=bool(e.get("refit", False)),
+               centre=e.get("centre", "na"))
         elif t == "Neighbors":
             ev("Neighbors", site=e["site"], ntrain=e["ntrain"], want=e["want"], sortedok=e["sorted_ok"],
                nnearer=e["n_nearer_excluded"], nunmatched=e["n_unmatched"], ndup=e["n_dup_rows"])
